@@ -19,7 +19,7 @@ Defs == JsonDeserialize(IOEnv.LEX_CASES)
 NC   == Len(Defs)
 
 Usable(k) == WellFormed(Defs[k]) /\ AllSupported(Defs[k])
-PatsOf == TLCEval([k \in 1..NC |-> IF Usable(k) THEN Pats(Defs[k]) ELSE <<>>])
+PatsOf == [k \in 1..NC |-> IF Usable(k) THEN Pats(Defs[k]) ELSE <<>>]
 
 VARIABLES c, i, j, d1, d2, path
 vars == <<c, i, j, d1, d2, path>>
